@@ -194,4 +194,58 @@ theorem off2_nonneg (r c : Nat) (i j : Int) (hi : 0 ≤ i) (hj : 0 ≤ j) :
 theorem off1_nonneg (n : Nat) (i : Int) (hi : 0 ≤ i) : off1 [n] i = i.toNat := by
   unfold off1; simp [normIdx_nonneg, hi]
 
+/-! ### overwriting a stretch of a list -/
+
+section put
+variable {α : Type}
+
+/-- `l[k + i] := vals[i]` -/
+def putFrom (l : List α) : Nat → List α → List α
+  | _, [] => l
+  | k, v :: vs => putFrom (l.set k v) (k + 1) vs
+
+theorem putFrom_length (l : List α) (k : Nat) (vs : List α) : (putFrom l k vs).length = l.length := by
+  induction vs generalizing l k with
+  | nil => rfl
+  | cons v vs ih => simp [putFrom, ih]
+
+theorem putFrom_getD_lt (l : List α) (k : Nat) (vs : List α) (i : Nat) (h : i < k) (d : α) :
+    (putFrom l k vs).getD i d = l.getD i d := by
+  induction vs generalizing l k with
+  | nil => rfl
+  | cons v vs ih =>
+    simp only [putFrom]
+    rw [ih _ _ (by omega)]
+    simp only [List.getD_eq_getElem?_getD, List.getElem?_set]
+    have : k ≠ i := by omega
+    simp [this]
+
+theorem putFrom_getD_ge (l : List α) (k : Nat) (vs : List α) (i : Nat) (h : k + i < l.length)
+    (hi : i < vs.length) (d : α) : (putFrom l k vs).getD (k + i) d = vs.getD i d := by
+  induction vs generalizing l k i with
+  | nil => simp at hi
+  | cons v vs ih =>
+    simp only [putFrom]
+    cases i with
+    | zero =>
+      rw [putFrom_getD_lt _ _ _ _ (by omega)]
+      simp only [List.getD_eq_getElem?_getD, List.getElem?_set, Nat.add_zero] at h ⊢
+      simp [h]
+    | succ i =>
+      have := ih (l.set k v) (k + 1) i (by simp; omega) (by simpa using hi)
+      rw [show k + (i + 1) = k + 1 + i by omega, this]
+      simp
+
+/-- overwriting a whole list -/
+theorem putFrom_all (l vs : List α) (h : vs.length = l.length) : putFrom l 0 vs = vs := by
+  apply List.ext_getElem
+  · rw [putFrom_length, h]
+  · intro i h1 h2
+    have := putFrom_getD_ge l 0 vs i (by rw [putFrom_length] at h1; omega) h2 (vs[i]'h2)
+    simp only [Nat.zero_add, List.getD_eq_getElem?_getD] at this
+    rw [List.getElem?_eq_getElem h1, List.getElem?_eq_getElem h2] at this
+    simpa using this
+
+end put
+
 end XrsVerif.IL.Rg
